@@ -23,6 +23,7 @@ def sh(cmd, **kw):
 def main():
     args = sys.argv[1:]
     slots, props = 4, ALL
+    outname = None
     dirs = []
     i = 0
     while i < len(args):
@@ -30,6 +31,8 @@ def main():
             slots = int(args[i + 1]); i += 2
         elif args[i] == '--props':
             props = args[i + 1].split(','); i += 2
+        elif args[i] == '--out':
+            outname = args[i + 1]; i += 2
         else:
             dirs.append(os.path.abspath(args[i])); i += 1
     snap = f'/tmp/vsnap-{os.getpid()}'
@@ -89,7 +92,7 @@ def main():
             if kind == 'harmless':
                 json.dump(dict(id=sid, results=res, false_alarms=alarms, **meta), open(f'{d}/result.json', 'w'), indent=1)
             else:
-                json.dump(dict(seed=sid, results=res, detected_by=det, **meta), open(f'{d}/detect.json', 'w'), indent=1)
+                json.dump(dict(seed=sid, results=res, detected_by=det, **meta), open(f'{d}/{outname or "detect.json"}', 'w'), indent=1)
             with lock:
                 print(sid, 'detected by' if kind != 'harmless' else 'ALARMS', det if kind != 'harmless' else alarms, flush=True)
         sh(['git', '-C', '/repo', 'worktree', 'remove', '--force', wt])
